@@ -56,9 +56,16 @@ def make(n_ops: int, max_len: int, alphabet: str, two_ctx: bool, bad_values: boo
                 if op == 0:
                     fi = sym.choice("fmt%d" % i, 2)
                     val = VALUES[i % len(VALUES)]
-                    bad_value = bad_values and sym.bool("unserialisable%d" % i)
-                    if bad_value:
-                        val = (lambda: 0)  # neither picklable nor JSON-representable
+                    # which of the two classes of failing value an operation uses is fixed by its position (a three-way
+                    # choice per operation does not fit the quick budget): op0, op2 the usual one, op1 the unusual one
+                    bad_value = bad_values and sym.bool("unserialisable%d" % i) and (1 + i % 2)
+                    if bad_value == 1:
+                        val = (lambda: 0)  # neither picklable nor JSON-representable (TypeError / AttributeError / PicklingError)
+                    elif bad_value == 2:
+                        # fails in both formats with errors outside the usual serialisation classes: JSON meets the cycle
+                        # first (ValueError), pickle the element whose __reduce_ex__ raises (RuntimeError)
+                        val = [_Boom()]
+                        val.insert(0, val)
                     kind, payload = loop.run_to_verdict(st.save(keys[ki], val, fmt=FMTS[fi]))
                     trace.append(("save", ki, ci, fi, kind))
                     if bad_value and (ci, ki) not in model:
@@ -117,6 +124,11 @@ def _k(kind: str, payload: Any) -> str:
 FUN = ["ml_pipeline_engine/artifact_store/store/filesystem.py::FileSystemArtifactStore.save/load/_get_glob/_ensure_dir, dont_use_for_prod",
        "ml_pipeline_engine/artifact_store/serializers.py::SerializerFactory.from_data_format/from_extension, PickleSerializer, JSONSerializer",
        "ml_pipeline_engine/artifact_store/store/base.py"]
+class _Boom:
+    def __reduce_ex__(self, protocol: Any) -> Any:
+        raise RuntimeError("cannot be serialised")
+
+
 A = ["pathlib.Path replaced by an in-memory stand-in (dirs/files, fnmatch glob, suffix, open) validated against real "
      "pathlib on a fixed corpus at every run; real-filesystem effects (permissions, case-insensitive file systems, "
      "concurrent writers) outside the claim",
